@@ -102,8 +102,21 @@ pub fn set_force_plain_io(force: bool) {
     FORCE_PLAIN_IO.store(force, Ordering::SeqCst);
 }
 
+thread_local! {
+    static THREAD_FORCE_PLAIN_IO: Cell<Option<bool>> = const { Cell::new(None) };
+}
+
+/// Per-thread form of `set_force_plain_io` (a `DiskIO` is created on the opening thread);
+/// `None` falls back to the process-wide switch.
+pub fn set_thread_force_plain_io(force: Option<bool>) {
+    THREAD_FORCE_PLAIN_IO.with(|flag| flag.set(force));
+}
+
 #[inline]
 pub(crate) fn force_plain_io() -> bool {
+    if let Some(force) = THREAD_FORCE_PLAIN_IO.with(|flag| flag.get()) {
+        return force;
+    }
     FORCE_PLAIN_IO.load(Ordering::Relaxed)
 }
 
